@@ -419,7 +419,9 @@ def _tendon_case(acc, rng):
 def _run(ctx, ncases, rec):
   rng = np.random.default_rng(ctx.seed * 1000 + 21)
   acc = Acc()
-  plan = [BOUNDARY[i % len(BOUNDARY)] for i in range(ctx.seed, ctx.seed + min(ncases, 5 if not ctx.thorough else len(BOUNDARY)))]
+  # always first: a tree above the sparse threshold (> 64 dofs) next to coupled trees that get PACKED blocks (2..64 dofs) and a
+  # compact block: every layout in one factor buffer, the offsets between the packed part and the sparse part matter
+  plan = [[70, 9, 4, 2]] + [BOUNDARY[i % len(BOUNDARY)] for i in range(ctx.seed, ctx.seed + min(ncases, 4 if not ctx.thorough else len(BOUNDARY)))]
   while len(plan) < ncases:
     nt = int(rng.integers(1, 5))
     plan.append([int(rng.choice([1, 2, 3, 4, 5, 6, 7, 8, 12, 20, 31, 32, 33, 40, 63, 64, 65, 66, 90])) if rng.random() < 0.5 else int(rng.integers(1, 30)) for _ in range(nt)])
@@ -440,8 +442,10 @@ def _run(ctx, ncases, rec):
   else:
     scenario()
     kc = None
-  for integ in ["implicitfast", "implicit", "Euler"] * (2 if ctx.thorough else 1):
-    _step_check(ctx, acc, rng, integ, [int(rng.integers(1, 12)) for _ in range(int(rng.integers(1, 4)))] + ([66] if rng.random() < 0.3 else []))
+  for k, integ in enumerate(["implicitfast", "implicit", "Euler"] * (2 if ctx.thorough else 1)):
+    # one of the integrators per run gets the mixed layout (packed blocks + a sparse tree), the others small forests
+    mixed = (k % 3 == ctx.seed % 3) or rng.random() < 0.3
+    _step_check(ctx, acc, rng, integ, [int(rng.integers(2, 12)) for _ in range(int(rng.integers(1, 4)))] + ([66] if mixed else []))
   return acc, kc
 
 
